@@ -448,6 +448,9 @@ def rand_case(rng, allow_t0=False):
             else:
                 s = ''.join(rng.choice(alph) for _ in range(rng.choice([1, 2, 2])))
                 pats.append(['re', 's', X.lit(s)]); plants.append(s)
+        if rng.random() < 0.08:
+            # a pattern that matches the empty string matches at once, also when nothing is pending
+            pats.append(['s', ''] if k == 'x' else ['re', 's', ['star', ['chr', 120]]])
         tmo = rng.choice([0.337, 0.571, 0.571, 1.043, 2.069])
         if allow_t0 and rng.random() < 0.15:
             tmo = 0
@@ -503,6 +506,11 @@ def cancel_case(rng):
 
 
 CORPUS = [
+    # patterns that match the empty string while nothing is pending: the call returns at once and reads nothing
+    dict(kind='fd', arrivals=[[0.2, 'w', 'xxab']],
+         ops=[dict(mode='a', k='r', pats=[['re', 's', ['star', ['chr', 120]]]], T=1.043, gap=0), dict(mode='a', k='x', pats=[['s', 'ab']], T=1.043, gap=0)]),
+    dict(kind='fd', arrivals=[[0.2, 'w', 'xxab']],
+         ops=[dict(mode='a', k='x', pats=[['s', '']], T=1.043, gap=0), dict(mode='a', k='x', pats=[['s', 'ab']], T=1.043, gap=0)]),
     # a search window given with the call, different from the object's own, on the awaited path
     dict(kind='fd', arrivals=[[0.1, 'w', 'MARKxxxxxxxxxxxxxxxxxxxx'], [0.2, 'c']],
          ops=[dict(mode='a', k='x', pats=[['s', 'MARK'], ['E']], T=1.043, gap=0.3, W=5)]),
